@@ -4,8 +4,7 @@
   `val n % val d`; its refinement by `Uint::div_rem(_vartime)` is property C02).  Statements are on
   `toInt` with Lean's `Int`: `Int.tdiv/tmod` for truncation, `Int.fdiv/fmod` for flooring.
 -/
-import CB.Lemmas.C13Int
-import CB.Model.IntDiv
+import CB.Lemmas.C14Div
 set_option linter.unusedVariables false
 namespace CB.P14
 open CB CB.SInt CB.IntDiv
@@ -19,6 +18,143 @@ open CB CB.SInt CB.IntDiv
       (InRange n.length (Int.fdiv (toInt n) (toInt d)) →
         toInt (iCheckedDivRemFloor n d).1.1 = Int.fdiv (toInt n) (toInt d))
 -/
+
+/-! ### what the two conventions mean (facts about `Int.tdiv/tmod`, `Int.fdiv/fmod`) -/
+
+/-- truncation: `n = q·d + r`, `|r| < |d|`, `sign r ∈ {0, sign n}` -/
+theorem trunc_convention (A D : Int) (hD : D ≠ 0) :
+    D * Int.tdiv A D + Int.tmod A D = A ∧ (Int.tmod A D).natAbs < D.natAbs ∧
+    (0 ≤ A → 0 ≤ Int.tmod A D) ∧ (A ≤ 0 → Int.tmod A D ≤ 0) := tdiv_tmod_facts A D hD
+
+/-- flooring: `n = q·d + r`, `|r| < |d|`, `sign r ∈ {0, sign d}` -/
+theorem floor_convention (A D : Int) (hD : D ≠ 0) :
+    D * Int.fdiv A D + Int.fmod A D = A ∧ (Int.fmod A D).natAbs < D.natAbs ∧
+    (0 < D → 0 ≤ Int.fmod A D) ∧ (D < 0 → Int.fmod A D ≤ 0) := fdiv_fmod_facts A D hD
+
+/-! ### T14.1 truncating division -/
+
+/-- T14.1 `checked_div_rem(_vartime)` (also `checked_div(_vartime)`, `rem(_vartime)`, `CheckedDiv`,
+    `/ % /= %=` on `Int` and `Wrapping<Int>`, `Checked<Int> /`), equal and mixed widths: the remainder is
+    `tmod`, the quotient is `tdiv`, reported as `none` exactly when `tdiv ∉ [MIN, MAX]`. -/
+theorem checked_div_rem_spec {n d : List Nat} (hn : WF n) (hd : WF d) (hne : n ≠ []) (hd0 : toInt d ≠ 0) :
+    (iCheckedDivRem n d).1.2 = mask (decide (InRange n.length (Int.tdiv (toInt n) (toInt d)))) ∧
+    (InRange n.length (Int.tdiv (toInt n) (toInt d)) →
+      toInt (iCheckedDivRem n d).1.1 = Int.tdiv (toInt n) (toInt d)) ∧
+    toInt (iCheckedDivRem n d).2 = Int.tmod (toInt n) (toInt d) := by
+  obtain ⟨h1, h2, h3⟩ := checkedDivRem_spec hn hd hne hd0
+  exact ⟨h1, fun hin => by rw [h2, wrapS_of_inRange hin], h3⟩
+
+/-- T14.1 the quotient is `none` exactly for `MIN / -1` (a zero divisor is not a `NonZero`; the forms that
+    take a plain divisor return `none` for it before reaching this code). -/
+theorem checked_div_none_iff {n d : List Nat} (hn : WF n) (hd : WF d) (hne : n ≠ []) (hd0 : toInt d ≠ 0) :
+    (iCheckedDivRem n d).1.2 =
+      mask (decide (¬(2 * toInt n = -((B ^ n.length : Nat) : Int) ∧ toInt d = -1))) := by
+  rw [(checkedDivRem_spec hn hd hne hd0).1]
+  exact mask_congr (tdiv_inRange_iff (toInt_inRange hn) hd0)
+
+/-- T14.1 `DivVartime::div_vartime` computes the same quotient option (and `expect`s it). -/
+theorem div_vartime_eq (n d : List Nat) : iDivVartime n d = (iCheckedDivRem n d).1 := rfl
+
+/-- T14.1u `div_rem_uint(_vartime)` (also `div_uint`, `rem_uint`, `/ % /= %=` by `NonZero<Uint>`):
+    quotient `tdiv` (always representable), remainder `tmod` whenever the divisor is at least as wide as the
+    dividend — in particular for every equal-width form. -/
+theorem div_rem_uint_spec {n d : List Nat} (hn : WF n) (hd : WF d) (hne : n ≠ []) (hd0 : val d ≠ 0)
+    (hw : n.length ≤ d.length) :
+    toInt (iDivRemUint n d).1 = Int.tdiv (toInt n) (val d : Int) ∧
+    toInt (iDivRemUint n d).2 = Int.tmod (toInt n) (val d : Int) := by
+  obtain ⟨h1, h2, h3⟩ := divRemUint_spec hn hd hne hd0
+  exact ⟨h1, by rw [h2, wrapS_of_inRange (h3 hw)]⟩
+
+/-
+  FULL STATEMENT (unproved — FALSE of the code for a divisor narrower than the dividend, see
+  `rem_uint_narrow_witness`):
+  theorem div_rem_uint_vartime_spec {n d : List Nat} (hn : WF n) (hd : WF d) (hne : n ≠ []) (hd0 : val d ≠ 0) :
+      toInt (iDivRemUint n d).1 = Int.tdiv (toInt n) (val d : Int) ∧
+      toInt (iDivRemUint n d).2 = Int.tmod (toInt n) (val d : Int)
+-/
+
+/-- T14.1u (all widths) the quotient is exact; the remainder is `tmod` modulo `2^RBITS` re-signed, hence
+    exact under the explicit hypothesis that `tmod` fits `Int<RHS_LIMBS>`. -/
+theorem div_rem_uint_vartime_partial {n d : List Nat} (hn : WF n) (hd : WF d) (hne : n ≠ []) (hd0 : val d ≠ 0)
+    (H_fits : InRange d.length (Int.tmod (toInt n) (val d : Int))) :
+    toInt (iDivRemUint n d).1 = Int.tdiv (toInt n) (val d : Int) ∧
+    toInt (iDivRemUint n d).2 = Int.tmod (toInt n) (val d : Int) := by
+  obtain ⟨h1, h2, _⟩ := divRemUint_spec hn hd hne hd0
+  exact ⟨h1, by rw [h2, wrapS_of_inRange H_fits]⟩
+
+/-- T14.1u-n the narrow-divisor remainder is wrong on the code: `I128 2^63 rem U64 0x8000000000000003`
+    returns `I64::MIN = -2^63`; required `2^63` (not representable in the return type). -/
+theorem rem_uint_narrow_witness :
+    toInt [HALF, 0] = 9223372036854775808 ∧ val [HALF + 3] = 9223372036854775811 ∧
+    toInt (iDivRemUint [HALF, 0] [HALF + 3]).1 = 0 ∧
+    toInt (iDivRemUint [HALF, 0] [HALF + 3]).2 = -9223372036854775808 ∧
+    Int.tmod 9223372036854775808 9223372036854775811 = 9223372036854775808 := by decide
+
+/-! ### T14.2 flooring division by an unsigned divisor -/
+
+/-- T14.2 `div_rem_floor_uint(_vartime)` (also `div_floor_uint(_vartime)`, `normalized_rem(_vartime)`), equal
+    and mixed widths: `q = ⌊n/d⌋`, the remainder is `fmod` as an unsigned value of the divisor's width. -/
+theorem div_rem_floor_uint_spec {n d : List Nat} (hn : WF n) (hd : WF d) (hne : n ≠ []) (hd0 : val d ≠ 0) :
+    toInt (iDivRemFloorUint n d).1 = Int.fdiv (toInt n) (val d : Int) ∧
+    ((val (iDivRemFloorUint n d).2 : Nat) : Int) = Int.fmod (toInt n) (val d : Int) ∧
+    WF (iDivRemFloorUint n d).2 ∧ (iDivRemFloorUint n d).2.length = d.length :=
+  divRemFloorUint_spec hn hd hne hd0
+
+/-- T14.2 `normalized_rem ∈ [0, d)` and `n = q·d + r` with the returned values. -/
+theorem normalized_rem_range {n d : List Nat} (hn : WF n) (hd : WF d) (hne : n ≠ []) (hd0 : val d ≠ 0) :
+    val (iDivRemFloorUint n d).2 < val d ∧
+    (val d : Int) * toInt (iDivRemFloorUint n d).1 + ((val (iDivRemFloorUint n d).2 : Nat) : Int) = toInt n := by
+  obtain ⟨h1, h2, _, _⟩ := divRemFloorUint_spec hn hd hne hd0
+  have hdI : ((val d : Nat) : Int) ≠ 0 := by omega
+  obtain ⟨f1, f2, f3, _⟩ := fdiv_fmod_facts (toInt n) (val d : Int) hdI
+  rw [← h2] at f1 f2 f3
+  rw [← h1] at f1
+  refine ⟨?_, f1⟩
+  have := f3 (by omega)
+  omega
+
+/-! ### T14.3 flooring division by a signed divisor -/
+
+/-- T14.3q the floored QUOTIENT is right for all inputs: `⌊n/d⌋`, `none` exactly when it does not fit
+    (only `MIN ⌊/⌋ -1`). -/
+theorem checked_div_floor_quotient_spec {n d : List Nat} (hn : WF n) (hd : WF d) (hne : n ≠ [])
+    (hd0 : toInt d ≠ 0) :
+    (iCheckedDivRemFloor n d).1.2 = mask (decide (InRange n.length (Int.fdiv (toInt n) (toInt d)))) ∧
+    (InRange n.length (Int.fdiv (toInt n) (toInt d)) →
+      toInt (iCheckedDivRemFloor n d).1.1 = Int.fdiv (toInt n) (toInt d)) := by
+  obtain ⟨h1, h2, _⟩ := checkedDivRemFloor_spec hn hd hne hd0
+  exact ⟨h1, fun hin => by rw [h2, wrapS_of_inRange hin]⟩
+
+/-- T14.3w the floored REMAINDER as the code computes it, for all inputs: `fmod` for a non-negative
+    dividend, `-fmod` for a negative one. -/
+theorem checked_div_rem_floor_as_written {n d : List Nat} (hn : WF n) (hd : WF d) (hne : n ≠ [])
+    (hd0 : toInt d ≠ 0) :
+    toInt (iCheckedDivRemFloor n d).2 =
+      (if toInt n < 0 then - Int.fmod (toInt n) (toInt d) else Int.fmod (toInt n) (toInt d)) :=
+  (checkedDivRemFloor_spec hn hd hne hd0).2.2
+
+/-- T14.3 `_partial`: the full statement (header of this file) holds under the explicit hypothesis that
+    the dividend is non-negative or the division is exact. -/
+theorem checked_div_rem_floor_partial {n d : List Nat} (hn : WF n) (hd : WF d) (hne : n ≠ [])
+    (hd0 : toInt d ≠ 0) (H_nonneg_or_exact : 0 ≤ toInt n ∨ Int.fmod (toInt n) (toInt d) = 0) :
+    toInt (iCheckedDivRemFloor n d).2 = Int.fmod (toInt n) (toInt d) ∧
+    (iCheckedDivRemFloor n d).1.2 = mask (decide (InRange n.length (Int.fdiv (toInt n) (toInt d)))) ∧
+    (InRange n.length (Int.fdiv (toInt n) (toInt d)) →
+      toInt (iCheckedDivRemFloor n d).1.1 = Int.fdiv (toInt n) (toInt d)) := by
+  obtain ⟨q1, q2⟩ := checked_div_floor_quotient_spec hn hd hne hd0
+  refine ⟨?_, q1, q2⟩
+  rw [checked_div_rem_floor_as_written hn hd hne hd0]
+  rcases H_nonneg_or_exact with h | h
+  · rw [if_neg (by omega)]
+  · rw [h]; simp
+
+/-- T14.3n (general form) whenever the dividend is negative and the division inexact, the returned
+    remainder differs from `fmod`, and `n ≠ q·d + r` for the returned pair. -/
+theorem checked_div_rem_floor_defect {n d : List Nat} (hn : WF n) (hd : WF d) (hne : n ≠ [])
+    (hd0 : toInt d ≠ 0) (hneg : toInt n < 0) (hinexact : Int.fmod (toInt n) (toInt d) ≠ 0) :
+    toInt (iCheckedDivRemFloor n d).2 ≠ Int.fmod (toInt n) (toInt d) := by
+  rw [checked_div_rem_floor_as_written hn hd hne hd0, if_pos hneg]
+  omega
 
 /-- T14.3n The flooring division by a SIGNED divisor, as the crate computes it, violates the property:
     `-8 ⌊/⌋ 3` returns the remainder `-1` (required: `1 = fmod (-8) 3`), so `n ≠ q·d + r`. -/
